@@ -55,6 +55,11 @@ class FileProxy(object):
         n = fs.count("write")
         f = fs.plan.match("write", n)
         fs.boundary("write", self._rel)
+        if f is None and fs.disk_full:
+            fs.journal.append(("write!", self._rel, "enospc-persistent"))
+            raise OSError(errno.ENOSPC, os.strerror(errno.ENOSPC))
+        if f is not None and f.get("persistent"):
+            fs.disk_full = True
         if f is not None:
             mode = f.get("mode", "enospc")
             if mode == "enospc_partial" and len(data) > 1:
@@ -83,6 +88,8 @@ class FileProxy(object):
             n = fs.count("flush_close")
             f = fs.plan.match("flush_close", n)
             fs.boundary("close", self._rel)
+            if f is None and fs.disk_full:
+                f = {"kind": "flush_close", "mode": "enospc-persistent"}
             if f is not None:
                 # the data may or may not have reached the disk; the handle is gone
                 try:
@@ -90,7 +97,8 @@ class FileProxy(object):
                 except OSError:
                     pass
                 fs.journal.append(("close!", self._rel))
-                raise OSError(errno.EIO, os.strerror(errno.EIO))
+                code = errno.ENOSPC if f.get("mode") == "enospc-persistent" else errno.EIO
+                raise OSError(code, os.strerror(code))
         r = self._real.close()
         fs.journal.append(("close", self._rel))
         return r
@@ -131,6 +139,7 @@ class SimFS(object):
         self.journal = []
         self.counts = {}
         self.on_boundary = on_boundary
+        self.disk_full = False     # set by a persistent ENOSPC fault
         self._saved = None
 
     # -- helpers
